@@ -9,7 +9,7 @@ LEVEL_NOTE = (
 CLAIMS = {
     "C03": {
         "technique": "static analysis: who-may-write sweep over record fields, interval/length algebra on linear forms (A4), exhaustive action dispatch (A6), abstract execution of remainder() on literal match lists",
-        "text": "Decides, for every path of the modifier code, that bases/qualities of a record are only ever written on a private copy by the mask/lowercase/zero-cap code, that the written strings keep the length and only change the documented positions, that the three encodings of a match's kept interval (trimmed / trim_slice / remainder_interval), removed_sequence_length, retained interval and remainder() agree as linear forms, that every --action value has a branch in both cutters operating on the original read, and that trimming modifiers slice the record (not one string). Not decided: that match coordinates lie inside the read (runtime values). Also: no modifier indexes into a possibly empty read; --quality-base reaches every modifier interpreting quality characters (C03.X).",
+        "text": "Decides, for every path of the modifier code, that bases/qualities of a record are only ever written on a private copy by the mask/lowercase/zero-cap code, that the written strings keep the length and only change the documented positions, that the three encodings of a match's kept interval (trimmed / trim_slice / remainder_interval), removed_sequence_length, retained interval and remainder() agree as linear forms, that every --action value has a branch in both cutters operating on the original read, and that trimming modifiers slice the record (not one string). Not decided: that match coordinates lie inside the read (runtime values). Also: no modifier indexes into a possibly empty read; --quality-base reaches every modifier interpreting quality characters (C03.X). Every attribute the action helpers read on a match exists on every concrete match class (named exception: crop with a linked adapter, documented as unsupported).",
         "design_ref": "DESIGN.md section 5, C03",
     },
     "C04": {
@@ -34,7 +34,7 @@ CLAIMS = {
     },
     "C11": {
         "technique": "static analysis: builder interpreter (A2) for the order and wiring of filter steps; decision tables (A3) of every predicate's test() over the sign of (measure - threshold); filter-step consume/redirect table",
-        "text": "Decides that filter steps are appended in the documented order with at most one trimmed/untrimmed filter and the sink last, that each predicate's test() has exactly the documented strict comparison (including the empty-read and fraction cases of --max-n, --max-aer), that each predicate is built from its own option and each redirect file is attached to its own filter, and that a filter that applies consumes, counts and redirects iff it has a writer. Not decided: the numeric value of expected errors (C14).",
+        "text": "Decides that filter steps are appended in the documented order with at most one trimmed/untrimmed filter and the sink last, that each predicate's test() has exactly the documented strict comparison (including the empty-read and fraction cases of --max-n, --max-aer), that each predicate is built from its own option and each redirect file is attached to its own filter, and that a filter that applies consumes, counts and redirects iff it has a writer. Not decided: the numeric value of expected errors (C14). Also: every predicate that decodes quality characters receives the configured --quality-base; only quality-based filters depend on the input format.",
         "design_ref": "DESIGN.md section 5, C11",
     },
     "C16": {
@@ -75,12 +75,12 @@ CLAIMS.update({
     },
     "C17": {
         "technique": "static analysis: path-exhaustive abstract execution of the info writer and of both get_info_records (A1), slice algebra of the printed fields (A4), builder interpreter for the position of the writer and for the set of pre-adapter modifiers that remove a prefix (A2)",
-        "text": "Decides that the info writer returns every read and prints exactly one -1 row without match / one row per info record otherwise, that it precedes every consuming step, that the three sequence and quality fields are [0,a) [a,b) [b,end) of the record passed in with a, b the printed coordinates, the ;1/;2 rows of linked matches and the once-per-match advance, and that no modifier running before adapter trimming removes a prefix without the writer accounting for it (two known findings: -u N>0 and a 5' quality cutoff). Not decided: agreement with the aligner's error count. The frame rule also covers suffix removal before matching under --revcomp (three further known findings, same root cause).",
+        "text": "Decides that the info writer returns every read and prints exactly one -1 row without match / one row per info record otherwise, that it precedes every consuming step, that the three sequence and quality fields are [0,a) [a,b) [b,end) of the record passed in with a, b the printed coordinates, the ;1/;2 rows of linked matches and the once-per-match advance, and that no modifier running before adapter trimming removes a prefix without the writer accounting for it (two known findings: -u N>0 and a 5' quality cutoff). Not decided: agreement with the aligner's error count. The frame rule also covers suffix removal before matching under --revcomp (three further known findings, same root cause). Paired --revcomp: the swap must also reach info.original_read (sixth known finding).",
         "design_ref": "DESIGN.md section 5, C17",
     },
     "C18": {
         "technique": "static analysis: option table read from argparse with constant folding of the type lambdas (A5), decision tables (A3) of the class table, restriction parser, validation rules and ellipsis normalisation, dataflow of parameter-dict copies for precedence (A8), who-raises-what sweep against the handler tuple",
-        "text": "Decides the option->type table, the (type, restriction, rightmost)->class table and the restriction parser, that exactly the documented invalid combinations are rejected (e.g. o= only for anchored adapters), the abbreviation graph and the fate of every canonical parameter, that each precedence level is a copy of the lower level updated by the higher one, the anchoring characters of the file: forms, the divisor of absolute error numbers, and that every exception class raised on the specification path is converted to a command-line error. Brace expansion x{n} is decided as a four-state machine (C18.R8); anchored classes require the whole adapter; 'anywhere' is consumed on every path. Not decided: the grammar x options cross product as strings.",
+        "text": "Decides the option->type table, the (type, restriction, rightmost)->class table and the restriction parser, that exactly the documented invalid combinations are rejected (e.g. o= only for anchored adapters), the abbreviation graph and the fate of every canonical parameter, that each precedence level is a copy of the lower level updated by the higher one, the anchoring characters of the file: forms, the divisor of absolute error numbers, and that every exception class raised on the specification path is converted to a command-line error. Brace expansion x{n} is decided as a four-state machine (C18.R8); anchored classes require the whole adapter; 'anywhere' is consumed on every path. Every flag parameter (anywhere, rightmost, required/optional) is consumed or rejected on every route from a merged parameter dictionary to an adapter constructor; the anchoring character of file^:/file$: is attached to the sequence part of a record. Not decided: the grammar x options cross product as strings.",
         "design_ref": "DESIGN.md section 5, C18",
     },
 })
@@ -98,7 +98,7 @@ CLAIMS.update({
     },
     "C07": {
         "technique": "static analysis: coverage table aligner flags -> requested k-mer search sets per adapter class (A5/A2), argument/role agreement between prefilter and aligner (A7/A8), abstract execution of one error tier of the search-set builder, symbolic bounds of the raw-pointer scan with a small-model feasibility check (A10)",
-        "text": "Decides necessary conditions of 'the prefilter never changes the result': every placement the aligner flags admit is covered by a requested search set (and reads shorter than an anywhere adapter bypass the filter), filter and aligner get the same wildcard flags, error rate, overlap and string, each error tier emits max_errors+1 chunks and advances the minimum length, end windows are widened by the error allowance when indels are on, the scan never leaves the read, and k-mers fit the 64-bit word with a fallback to the always-true finder. NOT decided: soundness of the pigeonhole argument as a whole for every read. Also: no search entry whose window overlaps the read is skipped (small-model check on every skipping path).",
+        "text": "Decides necessary conditions of 'the prefilter never changes the result': every placement the aligner flags admit is covered by a requested search set (and reads shorter than an anywhere adapter bypass the filter), filter and aligner get the same wildcard flags, error rate, overlap and string, each error tier emits max_errors+1 chunks and advances the minimum length, end windows are widened by the error allowance when indels are on, the scan never leaves the read, and k-mers fit the 64-bit word with a fallback to the always-true finder. NOT decided: soundness of the pigeonhole argument as a whole for every read. Also: no search entry whose window overlaps the read is skipped (small-model check on every skipping path). The short-read bypass bound covers inserted bases (len + int(len*rate) with indels); prefilter character masks equal the aligner's comparison tables; no k-mer is dropped by the redundancy filter.",
         "design_ref": "DESIGN.md section 5, C07",
     },
     "C08": {
